@@ -276,6 +276,9 @@ class _AsyncFileReader(_UnicodeReader[AnyStr]):
     def close(self) -> None:
         """Stop forwarding data from the file"""
 
+        if self._feed_task:
+            self._feed_task.cancel()
+
         self._conn.create_task(self._file.close())
 
 
@@ -585,7 +588,14 @@ class _StreamReader(_UnicodeReader[AnyStr]):
         self.feed()
 
     def close(self) -> None:
-        """Ignore close -- the caller must clean up the associated transport"""
+        """Stop forwarding data from the stream
+
+           The caller must clean up the associated transport.
+
+        """
+
+        if self._feed_task:
+            self._feed_task.cancel()
 
 
 class _StreamWriter(_UnicodeWriter[AnyStr]):
